@@ -1,2 +1,3 @@
 pub mod stream;
 pub mod jitter;
+pub mod seedexp;
